@@ -101,6 +101,7 @@ def judge_job(arg: dict) -> dict:
         mat = fsrec.Materialiser(arg["root"], tmp / "d")
         proj = dsreal.Projector(arg["fmt"], arg.get("compression", ""), tuple(arg.get("hashes", ("sha256",))))
         wlog, done = {}, []
+        snaps = []
         nsess = 0
         k = 0
 
@@ -117,6 +118,36 @@ def judge_job(arg: dict) -> dict:
                     out["problems"].append(("reader-raised", f"crash point {tag}: opening / iterating the dataset "
                                             f"raised {type(exc).__name__}: {str(exc)[:300]}", tag))
             out["states"].append(st)
+            # a SLOW reader: it read the metadata some effects ago and reads the shard files only now (the reader's
+            # steps ReaderStart / ReaderList ... ReaderShard of Dataset.tla with writer effects in between): the
+            # metadata files of an earlier instant are laid over the current directory and the real reader runs
+            se = arg.get("slow_every", 0)
+            if se and (mat.scratch / "dataset_info.json").exists():
+                snaps.append((tag, list(done), {p.relative_to(mat.scratch): p.read_bytes()
+                                                for p in mat.scratch.rglob("*.json")}))
+                del snaps[:-12]
+                lag = (2, 5, 9)[(len(out["states"]) // se) % 3]
+                if len(out["states"]) % se == 0 and len(snaps) > lag and "torn" not in snaps[-1 - lag][0]:
+                    tag0, done0, meta0 = snaps[-1 - lag]
+                    slow = tmp / "slow"
+                    if slow.exists():
+                        shutil.rmtree(slow)
+                    shutil.copytree(mat.scratch, slow)
+                    for p in list(slow.rglob("*.json")):
+                        if p.relative_to(slow) not in meta0:
+                            p.unlink()
+                    for rel, data in meta0.items():
+                        (slow / rel).parent.mkdir(parents=True, exist_ok=True)
+                        (slow / rel).write_bytes(data)
+                    what = f"metadata as of '{tag0}', shard files as of '{tag}'"
+                    try:
+                        rb = _reader(slow)
+                        out["states"].append({"files": [], "mem": {"none": True}, "wlog": st["wlog"], "done": done0,
+                                              "checks": ["R06"], "readback": rb, "point": "slow reader: " + what})
+                        out["n_slow_reads"] = out.get("n_slow_reads", 0) + 1
+                    except Exception as exc:  # pylint: disable=broad-except
+                        out["problems"].append(("slow-reader-raised", f"a reader with {what} raised "
+                                                f"{type(exc).__name__}: {str(exc)[:300]}", tag))
             # recovery: every m-th crash state is handed to a "new process" that writes one more session into it
             m = arg.get("recover_every", 0)
             if m and (mat.scratch / "dataset_info.json").exists() and len(out["states"]) % m == 0:
